@@ -28,8 +28,9 @@ def lattice(rng, n, shape, base=(0, 0, 0), key0=0.0):
     n = len(pids)
     pts = set()
     xyz = []
+    h = max(12, int(round(n ** (1 / 3))) + 1)          # box of at least 8 n lattice points (12 for every tree below 1300 nodes)
     while len(xyz) < n:
-        c = (base[0] + rng.randint(-12, 12), base[1] + rng.randint(-12, 12), base[2] + rng.randint(-12, 12))
+        c = (base[0] + rng.randint(-h, h), base[1] + rng.randint(-h, h), base[2] + rng.randint(-h, h))
         if c not in pts:
             pts.add(c); xyz.append([float(v) for v in c])
     return {"n": n, "pids": pids, "types": [rng.choice([1, 1, 2, 3, 4])] + [rng.choice([2, 3, 4, 5]) for _ in range(n - 1)], "xyz": xyz,
@@ -48,6 +49,108 @@ def shuffle_all(rng, t, key0=0.0):
     return {"n": n, "pids": [-1 if t["pids"][inv[w]] == -1 else perm[t["pids"][inv[w]]] for w in range(n)],
             "types": [t["types"][inv[w]] for w in range(n)], "xyz": [t["xyz"][inv[w]] for w in range(n)],
             "r": [key0 + (w + 1) / 8 for w in range(n)]}
+
+
+def coincide(rng, t, m, how="parent"):
+    """the same tree with m zero-length segments: a non-root node moved exactly onto its parent (a branch point stored again as the
+    first sample of a side branch, a resampled file that repeats a point) or, `how="any"`, onto some other node.  Nodes keep their
+    identity (radius key); returns (tree, [(node, the node it now coincides with)])."""
+    n = t["n"]
+    xyz = [list(p) for p in t["xyz"]]
+    pairs = []
+    cand = [v for v in range(n) if t["pids"][v] >= 0]
+    rng.shuffle(cand)
+    # parents first, so that a chain of moved nodes ends up on one point
+    depth = {}
+    for v in cand:
+        d, j = 0, v
+        while t["pids"][j] >= 0:
+            j = t["pids"][j]; d += 1
+        depth[v] = d
+    for v in sorted(cand[:m], key=lambda v: depth[v]):
+        w = t["pids"][v] if how == "parent" or n < 3 else rng.choice([u for u in range(n) if u != v])
+        xyz[v] = list(xyz[w]); pairs.append((v, w))
+    out = dict(t); out["xyz"] = xyz
+    return out, pairs
+
+
+# node counts at which the arithmetic on ids changes its regime: n itself, or a product id * n, leaves an 8 / 15 / 16 / 31 / 32 bit integer
+# (the library keeps id / pid as int32, keys such as `pid * n + position` are a natural way to group or sort nodes)
+def size_steps():
+    import math
+    return sorted({2 ** b for b in (8, 15, 16)} | {math.isqrt(2 ** b - 1) + 1 for b in (15, 16, 31, 32)})      # 182, 256, 32768, 46341, 65536
+
+
+def past(rng, step, just=False):
+    """a node count clearly past the step (by 1/32 … 1/8 of it), or just past it"""
+    return step + (rng.randint(1, 16) if just else rng.randint(max(2, step // 32), max(3, step // 8)))
+
+
+# large cases are stored as the parameters of their generator; the description goes into the case, so that a replay file explains itself
+# (and, the framework reporting the finding with the shortest case, a failing small explicit tree is preferred to a failing large one)
+BIG_HOW = ("large tree, given by the parameters of its seeded generator instead of its rows: harness.props.c07.build(spec) = "
+           "lattice(random.Random('c07/<seed>'), n, shape, base, key0), then shuffle_all(...) if 'shuffle' (root not at node 0); ids are positions, "
+           "node i carries the radius key0 + (i+1)/8 (its identity in the result), distinct integer lattice positions, the extra column tag; "
+           "not sent to the Lean model driver, judged by the oracle only")
+BIG_SHAPES = ["random", "caterpillar", "binary", "stem", "highdeg", "chain"]
+_built = {}
+
+
+def build(spec, key0=0.0):
+    """a tree of a case: given explicitly, or (large trees) as the parameters of its seeded generator"""
+    if "pids" in spec:
+        return spec
+    key = repr(sorted(spec.items()))
+    if key not in _built:
+        if len(_built) > 6:
+            _built.clear()
+        import random
+        rng = random.Random(f"c07/{spec['seed']}")
+        t = lattice(rng, spec["n"], spec["shape"], base=tuple(spec.get("base", (0, 0, 0))), key0=spec.get("key0", 0.0))
+        if spec.get("shuffle"):
+            t = shuffle_all(rng, t, key0=spec.get("key0", 0.0))
+        if spec.get("dups"):
+            t, _ = coincide(rng, t, spec["dups"])
+        _built[key] = t
+    return _built[key]
+
+
+def well_formed(ids, pids):
+    """gen.well_formed (ids = positions, node 0 the only root, parents exist, every node reaches the root) in linear time"""
+    n = len(ids)
+    if list(ids) != list(range(n)):
+        return "ids are not 0..n-1"
+    if n == 0:
+        return "empty"
+    if len(pids) != n:
+        return f"{len(pids)} parents for {n} nodes"
+    if pids[0] != -1:
+        return "node 0 is not a root"
+    for i in range(1, n):
+        if not (isinstance(pids[i], int) and 0 <= pids[i] < n):
+            return f"parent of {i} is {pids[i]}"
+    state = [0] * n                                   # 1 reaches the root, 2 does not
+    state[0] = 1
+    for i in range(n):
+        path, j = [], i
+        while state[j] == 0:
+            state[j] = 3; path.append(j); j = pids[j]
+        ok = 1 if state[j] == 1 else 2
+        for v in path:
+            state[v] = ok
+        if state[i] == 2:
+            return f"node {i} does not reach the root"
+    return None
+
+
+def same_len(res, keys):
+    """the per-node columns of a result all have one length (None: a column is missing / not a list)"""
+    ls = set()
+    for k in keys:
+        if not isinstance(res.get(k), list):
+            return None
+        ls.add(len(res[k]))
+    return ls.pop() if len(ls) == 1 else None
 
 
 def und_edges(pids):
@@ -78,13 +181,34 @@ class Redirect(Suite):
                 t = shuffle_all(rng, lattice(rng, n, gen.pick_shape(rng, k))); k += 1
                 root = 0 if rep == 0 else rng.randrange(t["n"])
                 out.append({"class": "root-elsewhere" + ("/at0" if root == 0 else ""), "tree": t, "root": root, "sort": rng.random() < 0.5})
+        # zero-length segments: nodes stored at exactly the position of their parent (or of another node); re-rooted at such a node too
+        for n in [2, 3, 5, 8] + ([20, 60] if big else []):
+            for rep in range(2 if not big else 4):
+                t = lattice(rng, n, gen.pick_shape(rng, k)); k += 1
+                if t["n"] < 2:
+                    t = lattice(rng, n, "random")
+                t, pairs = coincide(rng, t, rng.randint(1, max(1, t["n"] // 2)), "parent" if rep % 2 == 0 else "any")
+                v, w = rng.choice(pairs)
+                out.append({"class": "zero-length", "tree": t, "root": rng.choice([v, w, rng.randrange(t["n"])]), "sort": rep % 2 == 0})
+        # node counts just past the steps at which ids, or products of ids with the node count, outgrow an integer width
+        for step in size_steps():
+            for rep in range(1 if not big else 2):
+                n = past(rng, step, just=rep == 1)
+                spec = {"n": n, "shape": rng.choice(BIG_SHAPES), "seed": rng.randrange(2 ** 30), "shuffle": k % 3 == 0}; k += 1
+                case = {"class": f"size>{step}", "tree": spec if n > 400 else build(spec), "root": rng.randrange(n),
+                        "sort": rep == 0 and (big or step < 2 ** 16)}      # quick tier: the renumbering of the largest step is left out (time)
+                if n > 400:
+                    case["big"] = True
+                    case["how"] = BIG_HOW
+                out.append(case)
         return out
 
     def run(self, case):
         from swcgeom.core.tree_utils import redirect_tree
 
-        t = gen.make_tree(case["tree"])
-        t.ndata["tag"] = (1000.0 + np.arange(case["tree"]["n"])).astype(np.float32)      # a per-node column beyond the seven standard ones
+        tree = build(case["tree"])
+        t = gen.make_tree(tree)
+        t.ndata["tag"] = (1000.0 + np.arange(tree["n"])).astype(np.float32)      # a per-node column beyond the seven standard ones
         before = {k: v.copy() for k, v in t.ndata.items()}
         y = redirect_tree(t, case["root"], sort=case["sort"])
         return {"pid": y.pid().tolist(), "id": y.id().tolist(), "type": y.type().tolist(), "r": [float(v) for v in y.r()],
@@ -92,7 +216,7 @@ class Redirect(Suite):
                 "xyz": y.xyz().astype(float).tolist(), "input_unchanged": bool(all(np.array_equal(before[k], t.ndata[k]) for k in before))}
 
     def lines(self, case, res):
-        if "exc" in res:
+        if "exc" in res or case.get("big"):
             return []
         t = case["tree"]
         old = [int(round(v * 8)) - 1 for v in res["r"]]
@@ -102,14 +226,26 @@ class Redirect(Suite):
                 ("gredirect " + a, f"{gen.ints(res['id'])} / {gen.ints(res['pid'])} / {gen.ints(res['type'])}")]
 
     def oracle(self, case, res):
-        t = case["tree"]
+        try:
+            return self._oracle(case, res)
+        except Exception as e:  # noqa: BLE001 - an output the clauses below cannot even be evaluated on
+            return [("redirect-malformed-output", f"the result of redirect_tree cannot be read as a tree: {type(e).__name__}: {str(e)[:200]}")]
+
+    def _oracle(self, case, res):
+        t = build(case["tree"])
         n, pids, k = t["n"], t["pids"], case["root"]
+        what = f"pids={pids}" if n <= 60 else f"a {case['tree'].get('shape', '')} tree of {n} nodes"
+        if not isinstance(res, dict):
+            return [("redirect-malformed-output", f"result {str(res)[:80]}")]
         if "exc" in res:
-            return [("redirect-raises", f"redirect_tree(pids={pids}, {k}) raised {res['exc']}: {res.get('msg')}")]
+            return [("redirect-raises", f"redirect_tree({what}, {k}) raised {res['exc']}: {res.get('msg')}")]
         out = []
+        if same_len(res, ["pid", "id", "type", "r", "xyz"]) is None:
+            return [("redirect-malformed-output", "the per-node columns of the result differ in length: " +
+                     ", ".join(f"{c}: {len(res[c]) if isinstance(res.get(c), list) else res.get(c)}" for c in ["pid", "id", "type", "r", "xyz"]))]
         old = [int(round(v * 8)) - 1 for v in res["r"]]
         if sorted(old) != list(range(n)):
-            return [("redirect-nodes", f"nodes after re-rooting {sorted(old)}")]
+            return [("redirect-nodes", f"nodes after re-rooting {str(sorted(old))[:200]} ({len(old)} of {n})")]
         if res["id"] != list(range(n)):
             out.append(("redirect-ids", "ids are not 0..n-1"))
         new_of = {o: j for j, o in enumerate(old)}
@@ -126,12 +262,13 @@ class Redirect(Suite):
             out.append(("redirect-attrs", f"the extra per-node column does not follow its nodes: {str(res.get('tag'))[:80]}, nodes are (old ids) {old[:10]}"))
         new_pids_old = [-1 if res["pid"][new_of[o]] == -1 else old[res["pid"][new_of[o]]] for o in range(n)]
         if und_edges(new_pids_old) != und_edges(pids):
-            out.append(("redirect-edges", f"undirected edges changed: {und_edges(pids)} → {und_edges(new_pids_old)} (pids={pids}, new root {k})"))
+            a_, b_ = set(und_edges(pids)), set(und_edges(new_pids_old))
+            out.append(("redirect-edges", f"undirected edges changed: lost {sorted(a_ - b_)[:6]}, added {sorted(b_ - a_)[:6]} ({what}, new root {k})"))
         roots = [o for o in range(n) if new_pids_old[o] == -1]
         if roots != [k]:
             out.append(("redirect-root", f"roots after re-rooting at {k}: {roots}"))
-        if gen.well_formed(res["id"], res["pid"]) is not None and case["sort"]:
-            out.append(("redirect-not-wellformed", gen.well_formed(res["id"], res["pid"])))
+        if case["sort"] and well_formed(res["id"], res["pid"]) is not None:
+            out.append(("redirect-not-wellformed", well_formed(res["id"], res["pid"])))
         if case["sort"] and any(not (p < j) for j, p in enumerate(res["pid"])):
             out.append(("redirect-unsorted", "sort=True but a parent does not precede its child"))
         if not case["sort"] and old != list(range(n)):
@@ -186,14 +323,61 @@ class CatSuite(Suite):
                         case["spelling"] = sp
                         case["class"] = cls + "/" + sp
                     out.append(case)
+        # zero-length segments: a tree in which a node lies exactly on its parent (a branch point stored again as the first sample of a
+        # side branch) or on another node; the junction is such a parent, such a child, or any node — in tree1, in tree2, in both
+        zsizes = [2, 3, 5, 8] + ([15, 40] if big else [])
+        z = c1 = c2 = 0
+        for i, n1 in enumerate(zsizes):
+            for j, n2 in enumerate(zsizes):
+                for rep in range(1 if not big else 2):
+                    where, mode = ["t1", "t2", "t1", "both"][z % 4], ["translate", "fixed-touching", "fixed"][z % 3]; z += 1
+                    t1 = lattice(rng, n1, gen.pick_shape(rng, k)); k += 1
+                    t2 = lattice(rng, n2, gen.pick_shape(rng, k), base=(40, 0, 0), key0=64.0); k += 1
+                    a, b, at = rng.randrange(t1["n"]), rng.randrange(t2["n"]), "elsewhere"
+                    if where in ("t1", "both") and t1["n"] > 1:
+                        t1, pairs = coincide(rng, t1, rng.randint(1, max(1, t1["n"] // 2)), "parent" if k % 3 else "any")
+                        v, w = rng.choice(pairs)
+                        a, at = [(w, "on-parent"), (v, "on-child"), (w, "on-parent"), (a, "elsewhere")][c1 % 4]; c1 += 1      # guaranteed shares
+                    if where in ("t2", "both") and t2["n"] > 1:
+                        t2, pairs = coincide(rng, t2, rng.randint(1, max(1, t2["n"] // 2)), "parent" if k % 3 else "any")
+                        v, w = rng.choice(pairs)
+                        if where == "t2":
+                            b, at = [(w, "on-parent"), (v, "on-child"), (b, "elsewhere")][c2 % 3]; c2 += 1
+                    tj, vj = (t2, b) if where == "t2" else (t1, a)    # the class says where the junction really is
+                    at = ("on-parent" if any(p == vj and tj["xyz"][c] == tj["xyz"][vj] for c, p in enumerate(tj["pids"])) else
+                          "on-child" if tj["pids"][vj] >= 0 and tj["xyz"][tj["pids"][vj]] == tj["xyz"][vj] else "elsewhere")
+                    if mode == "fixed-touching":                      # junction nodes coincide without translation
+                        d = [t1["xyz"][a][c] - t2["xyz"][b][c] for c in range(3)]
+                        t2 = dict(t2); t2["xyz"] = [[p[c] + d[c] for c in range(3)] for p in t2["xyz"]]
+                    out.append({"class": f"zero-length/{where}/{at}/{mode}", "t1": t1, "t2": t2, "n1": a, "n2": b, "translate": mode == "translate"})
+        # node counts of the RESULT just past the steps at which ids, or products of ids with the node count, outgrow an integer width
+        for step in size_steps():
+            if step in (2 ** 15, 2 ** 16) and not big:
+                continue                                               # quick tier: these steps are taken by c07.redirect only (time)
+            for rep in range(1 if not big else 2):
+                n = past(rng, step, just=rep == 1)
+                n1 = rng.randint(max(1, n // 4), max(1, 3 * n // 4))
+                n2 = n + 1 - n1                                        # one more: the junction node may be merged away
+                key0 = 64.0 if n1 <= 400 else float(2 ** (n1.bit_length() + 1)) / 8
+                s1 = {"n": n1, "shape": rng.choice(BIG_SHAPES), "seed": rng.randrange(2 ** 30)}; k += 1
+                s2 = {"n": n2, "shape": rng.choice(BIG_SHAPES), "seed": rng.randrange(2 ** 30), "base": [40, 0, 0], "key0": key0,
+                      "shuffle": k % 2 == 0}; k += 1
+                translate = rng.random() < 0.5
+                case = {"class": f"size>{step}/{'translate' if translate else 'fixed'}", "t1": s1 if n > 400 else build(s1), "t2": s2 if n > 400 else build(s2),
+                        "n1": rng.randrange(n1), "n2": rng.randrange(n2), "translate": translate, "key0": key0}
+                if n > 400:
+                    case["big"] = True
+                    case["how"] = BIG_HOW
+                out.append(case)
         return out
 
     def run(self, case):
         from swcgeom.core.tree_utils import cat_tree
 
-        a, b = gen.make_tree(case["t1"]), gen.make_tree(case["t2"])
-        a.ndata["tag"] = (1000.0 + np.arange(case["t1"]["n"])).astype(np.float32)
-        b.ndata["tag"] = (5000.0 + np.arange(case["t2"]["n"])).astype(np.float32)
+        t1, t2 = build(case["t1"]), build(case["t2"])
+        a, b = gen.make_tree(t1), gen.make_tree(t2)
+        a.ndata["tag"] = (1000.0 + np.arange(t1["n"])).astype(np.float32)
+        b.ndata["tag"] = (5000.0 + np.arange(t2["n"])).astype(np.float32)
         before = [{k: v.copy() for k, v in t.ndata.items()} for t in (a, b)]
         sp = case.get("spelling", "kw")
         with warnings.catch_warnings():
@@ -212,12 +396,13 @@ class CatSuite(Suite):
     def _src(self, case, res):
         """per new node: (tree, old id)"""
         out = []
+        key0 = case.get("key0", 64.0)                  # radii: tree1 (i+1)/8 ≤ key0 - 4, tree2 key0 + (j+1)/8
         for v in res["r"]:
-            out.append((2, int(round((v - 64.0) * 8)) - 1) if v > 60 else (1, int(round(v * 8)) - 1))
+            out.append((2, int(round((v - key0) * 8)) - 1) if v > key0 - 4 else (1, int(round(v * 8)) - 1))
         return out
 
     def lines(self, case, res):
-        if "exc" in res:
+        if "exc" in res or case.get("big"):
             return []
         t1, t2 = case["t1"], case["t2"]
         ns = t1["n"]
@@ -230,19 +415,34 @@ class CatSuite(Suite):
         return [(line, f"{gen.ints(res['pid'])} / {gen.ints(pre)} / {xs(0)} / {xs(1)} / {xs(2)} / {gen.ints(res['type'])}")]
 
     def oracle(self, case, res):
-        t1, t2, a, b = case["t1"], case["t2"], case["n1"], case["n2"]
+        try:
+            return self._oracle(case, res)
+        except Exception as e:  # noqa: BLE001 - an output the clauses below cannot even be evaluated on
+            return [("cat-malformed-output", f"the result of cat_tree cannot be read as a tree: {type(e).__name__}: {str(e)[:200]}")]
+
+    def _oracle(self, case, res):
+        t1, t2, a, b = build(case["t1"]), build(case["t2"]), case["n1"], case["n2"]
+        what = (f"pids1={t1['pids']}, pids2={t2['pids']}" if t1["n"] + t2["n"] <= 100 else
+                f"{case['t1'].get('shape', '')} tree1 of {t1['n']} nodes, {case['t2'].get('shape', '')} tree2 of {t2['n']} nodes") + f", node1={a}, node2={b}"
+        if not isinstance(res, dict):
+            return [("cat-malformed-output", f"result {str(res)[:80]}")]
         if "exc" in res:
-            return [("cat-raises", f"cat_tree raised {res['exc']}: {res.get('msg')} (pids1={t1['pids']}, pids2={t2['pids']}, {a}, {b})")]
+            return [("cat-raises", f"cat_tree raised {res['exc']}: {res.get('msg')} ({what})")]
         out = []
+        if same_len(res, ["pid", "id", "type", "r", "xyz"]) is None:
+            return [("cat-malformed-output", "the per-node columns of the result differ in length: " +
+                     ", ".join(f"{c}: {len(res[c]) if isinstance(res.get(c), list) else res.get(c)}" for c in ["pid", "id", "type", "r", "xyz"]))]
         src = self._src(case, res)
         shift = [t1["xyz"][a][i] - t2["xyz"][b][i] for i in range(3)] if case["translate"] else [0.0, 0.0, 0.0]
         pos2 = [[p[i] + shift[i] for i in range(3)] for p in t2["xyz"]]
         merged = pos2[b] == t1["xyz"][a]
         want_nodes = [(1, i) for i in range(t1["n"])] + [(2, j) for j in range(t2["n"]) if not (merged and j == b)]
         if sorted(src) != sorted(want_nodes):
-            return [("cat-nodes", f"result nodes {sorted(src)[:12]}…, expected tree1 ∪ tree2{' minus the merged junction' if merged else ''}")]
-        if gen.well_formed(res["id"], res["pid"]) is not None:
-            out.append(("cat-not-wellformed", gen.well_formed(res["id"], res["pid"])))
+            lost, extra = sorted(set(want_nodes) - set(src)), sorted(set(src) - set(want_nodes))
+            return [("cat-nodes", f"result has {len(src)} nodes, expected tree1 ∪ tree2{' minus the merged junction node of tree2' if merged else ''} = {len(want_nodes)}: "
+                                  f"lost (tree, node) {lost[:8]}, unexpected {extra[:8]} ({what}, translate={case['translate']})")]
+        if well_formed(res["id"], res["pid"]) is not None:
+            out.append(("cat-not-wellformed", well_formed(res["id"], res["pid"])))
         new_of = {s: j for j, s in enumerate(src)}
         # tree1 unchanged; tree2 rigidly translated (types of its old root / node2 may be exchanged by the re-rooting)
         for j, (s, o) in enumerate(src):
@@ -272,7 +472,7 @@ class CatSuite(Suite):
                 got.add(frozenset([src[j], src[p]]))
         if got != E:
             out.append(("cat-edges", f"edges differ: missing {[sorted(e) for e in E - got][:4]}, extra {[sorted(e) for e in got - E][:4]} "
-                                     f"(pids1={t1['pids']}, pids2={t2['pids']}, node1={a}, node2={b}, merged={merged})"))
+                                     f"({what}, merged={merged})"))
         # tree1's parent relation is kept as it is (it is not re-rooted)
         for i, p in enumerate(t1["pids"]):
             j = new_of[(1, i)]
